@@ -117,6 +117,18 @@ for nm in uni:
     if st.name_hash in hs and hs[st.name_hash] != nm:
         probs.append(("two different strategy names share one reference prefix (hash): orders of one are attributed to the other", repr(nm)[:30] + " / " + repr(hs[st.name_hash])[:30], "", st.name_hash))
     hs[st.name_hash] = nm
+# 2c' the hash registry of a framework follows its strategies: a strategy registered AFTER the registry was first consulted (orders
+#     of an unknown strategy seen earlier, then the strategy is added) is found under its prefix
+from flumine.strategy.strategy import Strategies
+reg = Strategies()
+first = S(market_filter={}, name="early")
+reg(first, mock.Mock(), mock.Mock())
+_ = reg.hashes.get("unknown-prefix")
+late = S(market_filter={}, name="late")
+reg(late, mock.Mock(), mock.Mock())
+out["evaluations"] += 1
+if reg.hashes.get(late.name_hash) is not late or reg.hashes.get(first.name_hash) is not first:
+    probs.append(("a strategy added after the hash registry was first consulted is not found under its reference prefix", "late", "", late.name_hash))
 # 2d the separator configured at run time (flumine.config.order_sep): an order created without an explicit separator is either
 #    rejected or carries an acceptable, splittable reference
 from flumine import config as CFG
